@@ -2528,6 +2528,11 @@ impl<'store> QueryIter<'store> {
                 SelectionQualifier::Metadata,
                 AnnotationDepth::One,
             )) => Box::new(FromHandles::new(handles.clone().into_iter(), store).annotations()),
+            Some(&Constraint::AnnotationVariable(var, _, AnnotationDepth::Zero, None)) => {
+                //depth zero: the annotation itself (same as when used as secondary constraint)
+                let annotation = self.resolve_annotationvar(var)?;
+                Box::new(Some(annotation.clone()).into_iter())
+            }
             Some(&Constraint::AnnotationVariable(var, SelectionQualifier::Normal, depth, None)) => {
                 let annotation = self.resolve_annotationvar(var)?;
                 Box::new(annotation.annotations_in_targets(depth))
@@ -2555,6 +2560,10 @@ impl<'store> QueryIter<'store> {
             Some(&Constraint::ResourceVariable(var, SelectionQualifier::Metadata, None)) => {
                 let resource = self.resolve_resourcevar(var)?;
                 Box::new(resource.annotations_as_metadata())
+            }
+            Some(&Constraint::Annotation(annotation, _, AnnotationDepth::Zero, None)) => {
+                //depth zero: the annotation itself (same as when used as secondary constraint)
+                Box::new(Some(store.annotation(annotation).or_fail()?).into_iter())
             }
             Some(&Constraint::Annotation(annotation, SelectionQualifier::Normal, depth, None)) => {
                 Box::new(
